@@ -1,4 +1,5 @@
 """C07 Bankruptcy (structural clauses only)."""
+import re
 from engine import analysis as A, fde
 from engine.model import op_place
 from .common import *
@@ -282,3 +283,37 @@ def run(ctx):
                                                                                  (a.rhs.has_field(BANKCFG, "operational_state") and 1 in a.rhs.params and 2 not in a.rhs.params and killed(a.lhs)))]
             ctx.inst("C07.R5", "configure/cannot-set-killed", bool(new_ne), "the configure path stores a new state only if new != KilledByBankruptcy", [a.describe() for a in conds][:4] if not new_ne else "ok", cf.bloc(bi))
             ctx.inst("C07.R5", "configure/cannot-leave-killed", bool(cur_ne), "the configure path stores a new state only if the current state != KilledByBankruptcy", [a.describe() for a in conds][:4] if not cur_ne else "ok", cf.bloc(bi))
+
+
+def _cover_fee_direction(ctx):
+    """C07.R3: Token-2022 transfer-fee direction of the insurance cover (expression trees with closures inlined)."""
+    prog = ctx.prog
+    hs = prog.find_fns({"name": "lending_pool_handle_bankruptcy", "key_re": r"handle_bankruptcy::lending_pool_handle_bankruptcy$"})
+    if len(hs) != 1:
+        ctx.missing("C07.R3", "lending_pool_handle_bankruptcy handler")
+        return
+    h = hs[0]
+    tr = [c for c in h.calls() if c.callee and c.callee["name"] == "withdraw_spl_transfer"]
+    mins = [c for c in h.calls() if c.callee and c.callee["name"] == "min"]
+    if len(tr) != 1 or len(mins) != 1:
+        ctx.missing("C07.R3", "single cover transfer / min in lending_pool_handle_bankruptcy")
+        return
+    amt = expr_tree(prog, h, tr[0].args[1], inline=1)
+    avail = [expr_tree(prog, h, a, inline=1) for a in mins[0].args]
+    VA = "p1.accounts.insurance_vault.0.pointer.amount"
+    ok_avail = any(re.fullmatch(r"phi\(%s\|transpose\(map\(maybe_take_bank_mint\(.*\),closure\{calculate_post_fee_spl_deposit_amount\(to_account_info\(p2\),%s,get\(\)\.epoch\)\}\)\)\)" % (re.escape(VA), re.escape(VA)), a) for a in avail)
+    ctx.inst("C07.R3", "cover/available-insurance-net-of-transfer-fee", ok_avail,
+             "available insurance = what would arrive from the whole vault balance: post-fee(vault.amount) for a Token-2022 mint, vault.amount otherwise", [a[:300] for a in avail], mins[0].loc)
+    m = re.fullmatch(r"phi\((checked_to_num\(checked_ceil\(min\(.*\)\)\))\|transpose\(map\(maybe_take_bank_mint\(.*\),closure\{calculate_pre_fee_spl_deposit_amount\(to_account_info\(p2\),(checked_to_num\(checked_ceil\(min\(.*\)\)\)),get\(\)\.epoch\)\}\)\)\)", amt)
+    ctx.inst("C07.R3", "cover/transfer-grossed-up-for-transfer-fee", bool(m),
+             "amount sent from the insurance vault = pre-fee(ceil(covered)) for a Token-2022 mint (so that ceil(covered) arrives), ceil(covered) otherwise", amt[:400], tr[0].loc)
+
+
+_run_c07 = run
+
+
+def run(ctx):
+    try:
+        _run_c07(ctx)
+    finally:
+        _cover_fee_direction(ctx)
